@@ -14,7 +14,7 @@ import sys
 REPO = os.environ.get("CCT_REPO", "/repo")
 HERE = os.path.dirname(os.path.abspath(__file__))
 OUT = os.path.join(os.path.dirname(HERE), "coq", "theories", "Gen", "Source.v")
-MODULES = ["common", "signing"]      # later modules may call the functions and use the constants they import by name from earlier ones
+MODULES = ["common", "signing", "authentication"]      # later modules may call the functions and use the constants they import by name from earlier ones
 BUILTIN_CALLS = {"len", "sorted", "set", "int", "all"}
 TYPE_NAMES = {"dict", "list", "tuple", "str", "int", "float", "bool", "bytes", "set"}
 ISINSTANCE_CLASSES = {"str", "dict", "list", "timedelta", "bytes"}
@@ -35,6 +35,7 @@ class Tr:
     def __init__(self, fnames, type_tuples=None, str_lists=None):
         self.str_lists = str_lists or {}       # module-level NAME = ["a", "b"]: lists/tuples of str constants
         self.extra_builtins = set()            # names imported from the standard library that the interpreter knows (deepcopy)
+        self.sigs = {}                         # package function -> parameter names (for keyword arguments)
         self.fnames = fnames          # functions of the module
         self.type_tuples = type_tuples or {}   # module-level NAME = (dict, list, ...): tuples/lists of builtin classes
         self.unsupported = []
@@ -71,9 +72,19 @@ class Tr:
                 return "(EStr %s)" % ustr(v)
             return self.bad_e("constant " + type(v).__name__)
         if isinstance(e, ast.Call):
+            f = e.func
+            if e.keywords and isinstance(f, ast.Name) and f.id in self.fnames and f.id in self.sigs and f.id not in self.locals \
+                    and not any(isinstance(a, ast.Starred) for a in e.args) and all(k.arg is not None for k in e.keywords):
+                # keyword arguments of a call of a package function: put in positional order through its signature (every parameter given)
+                params = self.sigs[f.id]
+                kw = {k.arg: k.value for k in e.keywords}
+                rest = params[len(e.args):]
+                if len(e.args) <= len(params) and set(kw) == set(rest):
+                    self.calls.add(f.id)
+                    return "(ECall %s %s)" % (cstring(f.id), self.exprs(list(e.args) + [kw[p_] for p_ in rest]))
+                return self.bad_e("keyword call not covering the signature")
             if e.keywords or any(isinstance(a, ast.Starred) for a in e.args):
                 return self.bad_e("call with keywords/star")
-            f = e.func
             if isinstance(f, ast.Name):
                 if f.id == "isinstance" and len(e.args) == 2 and isinstance(e.args[1], ast.Name) and e.args[1].id in ISINSTANCE_CLASSES:
                     return "(EIsInstance %s %s)" % (self.expr(e.args[0]), cstring(e.args[1].id))
@@ -176,8 +187,8 @@ class Tr:
                 return "(SRaise %s)" % cstring(x.id)
             return self.bad_s("raise form")
         if isinstance(s, ast.Try):
-            if s.orelse or s.finalbody:
-                return self.bad_s("try with else/finally")
+            if s.finalbody:
+                return self.bad_s("try with finally")
             hs = []
             for h in s.handlers:
                 if h.name is not None:
@@ -189,6 +200,9 @@ class Tr:
                 else:
                     return self.bad_s("handler class")
                 hs.append("([%s], %s)" % ("; ".join(cstring(c) for c in cl), self.stmts(h.body)))
+            if s.orelse:
+                body = self.stmts(s.body)
+                return "(STryElse %s [%s] %s)" % (body, "; ".join(hs), self.stmts(s.orelse))
             return "(STry %s [%s])" % (self.stmts(s.body), "; ".join(hs))
         if isinstance(s, ast.For):
             if s.orelse or not isinstance(s.target, ast.Name):
@@ -206,7 +220,7 @@ class Tr:
 def translate_module(mod, earlier=None):
     """earlier: {"funs": names, "type_tuples": {...}, "str_lists": {...}} of the modules translated before (visible here only when
     imported by name with `from .<module> import NAME`)"""
-    earlier = earlier or {"funs": set(), "type_tuples": {}, "str_lists": {}}
+    earlier = earlier or {"funs": set(), "type_tuples": {}, "str_lists": {}, "sigs": {}}
     tree = ast.parse(open(os.path.join(REPO, "conda_content_trust", mod + ".py")).read())
     funs = {n.name: n for n in tree.body if isinstance(n, ast.FunctionDef)}
     imported, std = set(), set()
@@ -259,18 +273,21 @@ def translate_module(mod, earlier=None):
                 str_lists.setdefault(k, v)
         t = Tr(set(funs) | (earlier["funs"] & imported), type_tuples, str_lists)
         t.extra_builtins = set(std)
-        if a.vararg or a.kwarg or a.kwonlyargs or a.defaults or a.posonlyargs or fn.decorator_list:
+        if a.vararg or a.kwarg or a.kwonlyargs or a.posonlyargs or fn.decorator_list or not all(isinstance(d_, ast.Constant) for d_ in a.defaults):
             t.unsupported.append("signature")
+        t.sigs = {k: [x.arg for x in v.args.args] for k, v in funs.items()}
+        t.sigs.update(earlier.get("sigs", {}))
         params = [x.arg for x in a.args]
         t.locals = set(params)
         body = t.stmts(fn.body)
-        res[name] = {"params": params, "body": body, "unsupported": t.unsupported, "calls": sorted(t.calls), "line": fn.lineno, "mod": mod}
-    return res, {"funs": set(funs), "type_tuples": type_tuples, "str_lists": str_lists}
+        res[name] = {"params": params, "body": body, "unsupported": t.unsupported, "calls": sorted(t.calls), "line": fn.lineno, "mod": mod,
+                     "has_defaults": bool(a.defaults)}
+    return res, {"funs": set(funs), "type_tuples": type_tuples, "str_lists": str_lists, "sigs": {k: [x.arg for x in v.args.args] for k, v in funs.items()}}
 
 
 def select(res):
     """functions that translate completely, call only such functions, and are not on a cycle; callers first"""
-    ok = {n for n, r in res.items() if not r["unsupported"]}
+    ok = {n for n, r in res.items() if not r["unsupported"] and not r.get("has_defaults")}
     changed = True
     while changed:
         changed = False
@@ -301,7 +318,7 @@ def select(res):
 def generate():
     lines = ["(* GENERATED by harness/translate_src.py from /repo -- do not edit. *)",
              "From Coq Require Import String.", "From CCT Require Import Prelude PySrc.", "Open Scope N_scope.", "Open Scope string_scope.", ""]
-    res, ctx_acc, clash = {}, {"funs": set(), "type_tuples": {}, "str_lists": {}}, []
+    res, ctx_acc, clash = {}, {"funs": set(), "type_tuples": {}, "str_lists": {}, "sigs": {}}, []
     for mi, mod in enumerate(MODULES):
         r, c = translate_module(mod, ctx_acc)
         for k, v in r.items():
@@ -314,6 +331,7 @@ def generate():
         ctx_acc["funs"] |= c["funs"]
         ctx_acc["type_tuples"].update(c["type_tuples"])
         ctx_acc["str_lists"].update(c["str_lists"])
+        ctx_acc["sigs"].update(c["sigs"])
     order, acyclic = select(res)
     for n in order:
         r = res[n]
@@ -330,6 +348,19 @@ def generate():
             why = res[n]["unsupported"][0] if res[n]["unsupported"] else "calls a function that is not in the program"
             skipped.append("(%s, %s)" % (cstring(n), cstring(why)))
     lines.append("Definition not_translated : list (string * string) := [%s]." % ";\n  ".join(skipped))
+    lines.append("")
+    lines.append("(* entry functions whose own text translates completely but which call package functions outside the program (external callees,")
+    lines.append("   e.g. the crypto-bearing verify_signable) or have default parameters: their bodies, to be run with a callee that answers for the externals *)")
+    part = []
+    for n in sorted(res, key=lambda n: res[n]["line"]):
+        r = res[n]
+        if n in order or r["unsupported"]:
+            continue
+        ext = [c for c in r["calls"] if c not in order]
+        lines.append("(* %s.py:%d *)" % (r["mod"], r["line"] % 100000))
+        lines.append("Definition src_%s : fundef := {| fparams := [%s]; fbody :=\n  %s |}." % (n, "; ".join(cstring(p) for p in r["params"]), r["body"]))
+        part.append("(%s, [%s])" % (cstring(n), "; ".join(cstring(c) for c in ext)))
+    lines.append("Definition partial_entries : list (string * list string) := [%s]." % "; ".join(part))
     return "\n".join(lines) + "\n"
 
 
